@@ -53,11 +53,42 @@ def native_cases(tyname, route, values):
     return cases
 
 
+TEXT_GRID = ["1e1", "4.5e1", "1E0", "-1.2e1", "+5", ".5", "5.", "0e0", "1e-3", "inf", "-inf", "NaN", "nan", "infinity", "1e400", "-0",
+             "", " ", " 1", "1 ", "1_0", "0x10", "1e", "e1", ".", "+", "1,5", "1e+", "--1", "1.2.3", "\u0661", "1f64", "9e9", "1e2", "-9e1"]
+
+
+def text_judge(tyname, lo, hi, texts):
+    """Native: <T as FromStr>::from_str(text) against std's own f64 parser (reported by the replay binary) + range."""
+    cases = [{"api": "parse", "type": tyname, "text": t} for t in dict.fromkeys(texts)]
+    results = replay.run(cases)
+    for c, r in zip(cases, results):
+        bad = text_bad(r, lo, hi)
+        if bad:
+            return [("text-route:%s:%s" % (tyname, bad.split()[0]), "%s::from_str(%r) %s" % (tyname, c["text"], bad), c, r)]
+    return []
+
+
+def text_bad(r, lo, hi):
+    if "panic" in r or "crash" in r:
+        return "panics"
+    if "std" not in r:
+        return None
+    x = None if r["std"] is None else struct.unpack("<d", struct.pack("<Q", int(r["std"], 16)))[0]
+    exp_ok = x is not None and lo <= x <= hi
+    if r.get("ok") and not exp_ok:
+        return "accepts text that %s" % ("std's f64 parser rejects (malformed)" if x is None else "denotes an out-of-range/non-finite value")
+    if r.get("ok") is False and exp_ok:
+        return "rejects well-formed text of an in-range value (number and JSON routes accept %r)" % x
+    if r.get("ok") and r.get("bits") != r["std"]:
+        return "read back differs from the parsed value"
+    return None
+
+
 def concretise_factory(rep):
     def concretise(name, hres, ces):
         _, route, ty = name.split("_")
         tyname, lo, hi = TYPES[ty]
-        vals = []
+        vals, texts = [], []
         for ce in ces:
             if ce["kind"] != "assertion":
                 continue
@@ -71,8 +102,14 @@ def concretise_factory(rep):
                     vals.append(f64_of(raw) if k == 0 else struct.unpack("<q", raw)[0] if k == 1 else struct.unpack("<Q", raw)[0])
                 elif route == "tx":
                     vals.extend(f64_of(x) for x in v if len(x) == 8)
+                elif route == "ts":
+                    bs = [x[0] for x in v[:8] if len(x) == 1]
+                    n = struct.unpack("<Q", bytes(v[8]))[0] if len(v) > 8 and len(v[8]) == 8 else len(bs)
+                    texts.append(bytes(bs[:n]).decode("ascii", "replace"))
             except Exception:
                 pass
+        if route == "ts":
+            return text_judge(tyname, lo, hi, texts + TEXT_GRID)
         vals = vals + grid(lo, hi)
         cases = native_cases(tyname, route, vals)
         results = replay.run([c for c, _ in cases])
@@ -100,9 +137,12 @@ def run(rep):
     rep.functions.update(["<T as TryFrom<f64>>::try_from (Bounded::try_from, RangeInclusive::contains) for 6 types",
                           "Parsable::parse / FromStr for Gmt, Latitude, Longitude, Elevation",
                           "derive(Deserialize) impls of the 6 newtypes (serde-generated visitors)"])
-    rep.bounds = {"f64 input": "all 2^64 bit patterns", "json integer literals": "all i64 and all u64", "unwind": "none needed (loop-free)"}
+    rep.bounds = {"f64 input": "all 2^64 bit patterns", "json integer literals": "all i64 and all u64", "unwind": "none needed (loop-free) except the symbolic-text harnesses: 11",
+                  "symbolic text": "every printable-ASCII string of length 0..8"}
     rep.assumptions += [
-        "text route: <f64 as FromStr>::from_str is replaced by a stub returning an arbitrary Result<f64, ParseFloatError> "
+        "symbolic-text harnesses (c18_ts_*): <f64 as FromStr>::from_str is replaced by a grammar model (Ok(arbitrary f64) exactly for "
+        "[sign](inf|nan|digits[.digits][e[sign]digits]) strings, Err otherwise); a counterexample string is replayed natively against std's real parser",
+        "text route (c18_tx_*): <f64 as FromStr>::from_str is replaced by a stub returning an arbitrary Result<f64, ParseFloatError> "
         "(std's decimal->f64 conversion is outside the claim); core::fmt::write is stubbed to Ok(()) (error message text is outside the claim)",
         "JSON route: the derive-generated Deserialize impl is driven by a symbolic serde Deserializer presenting one number "
         "(visit_f64 / visit_i64 / visit_u64); serde_json's tokenizer and number parser are outside the claim",
@@ -122,6 +162,10 @@ def judge_replay(case, results):
         if not ty:
             continue
         _, lo, hi = ty[0]
+        if "std" in r:
+            if text_bad(r, lo, hi):
+                return True
+            continue
         if "x" in c:
             x = struct.unpack("<d", struct.pack("<Q", int(c["x"], 16)))[0]
         else:
